@@ -109,22 +109,55 @@ def gen_dir():
     return d
 
 
-GENERATED = ("axl_y.c", "comsgdb.c")
+GENERATED = ("axl_y.c", "comsgdb.c", "comsgdb.h")
+_eff_src = None
+
+
+def eff_src():
+    """Directory to compile the compiler sources from.  Normally SRC itself.  When a
+    generated file in the tree is stale with respect to the current axl.z / comsgdb.msg
+    (or missing, as in a bare worktree), a mirror of SRC made of symlinks, with the
+    freshly generated files in place, is used instead - quoted #includes resolve
+    relative to the including file, so the stale header would otherwise win."""
+    global _eff_src
+    if _eff_src:
+        return _eff_src
+    g = gen_dir()
+
+    def same(f):
+        try:
+            return open(os.path.join(SRC, f), "rb").read() == open(os.path.join(g, f), "rb").read()
+        except OSError:
+            return False
+    need = [f for f in GENERATED if not same(f)] + [f for f in ("opsys_port.h",) if not os.path.exists(os.path.join(SRC, f))]
+    if not need:
+        _eff_src = SRC
+        return SRC
+    d = scratch("src")
+    for f in os.listdir(SRC):
+        if f in GENERATED or f.endswith((".o", ".i", ".s", ".a", ".Po")):
+            continue
+        os.symlink(os.path.join(SRC, f), os.path.join(d, f))
+    for f in GENERATED:
+        shutil.copy(os.path.join(g, f), os.path.join(d, f))
+    if not os.path.exists(os.path.join(d, "opsys_port.h")):
+        os.symlink(RB + "/aldor/src/opsys_port.h", os.path.join(d, "opsys_port.h"))
+    _eff_src = d
+    return d
 
 
 def cc_objs(files, outdir, defs=(), srcdir=None, extra=()):
     """Compile the given .c files (relative to srcdir, default SRC) of the
     CURRENT working tree into outdir/*.o in parallel. Returns list of .o."""
-    srcdir = srcdir or SRC
+    srcdir = srcdir or eff_src()
+    inc = eff_src()
     os.makedirs(outdir, exist_ok=True)
     jobs = []
     for f in files:
         src = f if os.path.isabs(f) else os.path.join(srcdir, f)
-        if f in GENERATED:
-            src = os.path.join(gen_dir(), f)
         obj = os.path.join(outdir, os.path.basename(f)[:-2] + ".o")
         cmd = ["gcc", "-c"] + CFLAGS + DEFS + list(defs) + list(extra) + \
-              ["-I", gen_dir(), "-I", SRC, "-I", SRC + "/java", "-idirafter", RB + "/aldor/src", src, "-o", obj]
+              ["-I", inc, "-I", inc + "/java", src, "-o", obj]
         jobs.append((cmd, obj))
 
     def one(j):
@@ -361,6 +394,7 @@ class Report:
         self.violations = []      # (replay_path, tail)
         self.known = []
         self.notes = []
+        self.proof_finalize = None
 
     def add_cov(self, **kw):
         for k, v in kw.items():
@@ -412,6 +446,9 @@ class Report:
         return True
 
     def finish(self):
+        if self.proof_finalize:
+            self.proof_finalize()
+            self.proof_finalize = None
         wall = time.time() - self.t0
         cov = dict(self.cov)
         if "samples" in cov:
@@ -430,7 +467,7 @@ class Report:
         return 1 if self.violations else 0
 
 
-def proof_stage(rep, pid, make_targets, props_rel, searcher=None, timeout=1500):
+def proof_stage(rep, pid, make_targets, props_rel, searcher=None, timeout=1500, defer=False):
     """Common proof stage: grep gate, make deps, re-check the property file,
     record obligations/assumptions.  On failure call searcher(log) which should
     report a violation with a concrete input; if it reports none, emit the
@@ -463,8 +500,16 @@ def proof_stage(rep, pid, make_targets, props_rel, searcher=None, timeout=1500):
     before = len(rep.violations) + len(rep.known)
     if searcher:
         searcher(log)
-    if len(rep.violations) + len(rep.known) == before:
-        rep.violation("proof obligation no longer checks: %s" % (failing[:3],),
-                      {"failing": failing[:10], "log_tail": log[-3000:], "props": props_rel},
-                      no_input=True)
+
+    def finalize():
+        """emit the no-failing-input-found violation unless a concrete one was reported meanwhile"""
+        if len(rep.violations) + len(rep.known) == before:
+            rep.violation("proof obligation no longer checks: %s" % (failing[:3],),
+                          {"failing": failing[:10], "log_tail": log[-3000:], "props": props_rel},
+                          no_input=True)
+    if defer:
+        # the caller's own exploration is the searcher: it calls rep.proof_finalize() at the end
+        rep.proof_finalize = finalize
+    else:
+        finalize()
     return False
